@@ -77,7 +77,7 @@ func tailSender(i int) *evmkit.Account { return cachedKey(2000000 + i) }
 
 // globalAccounts / globalKeys are observed after every block of every run.
 var globalAccounts = []common.Address{eoa.Addr, fresh, storeAddr, loopAddr, evmkit.AdminTo, evmkit.AdminPrecompile, {} /* coinbase */, common.BytesToAddress([]byte{1})}
-var globalKeys = [][]byte{[]byte("k"), []byte("gk"), []byte("kB"), bigKey, {}}
+var globalKeys = [][]byte{[]byte("k"), []byte("gk"), []byte("kB"), []byte("kO"), bigKey, {}}
 
 // adminCallback is installed into the AdminOP precompile: stateless, accepts
 // exactly the payloads ending in "ok".
